@@ -203,6 +203,8 @@ class Sched:
     def _transfer(self, me, nxt, label):
         """Hand the baton from `me` (the running thread) to `nxt` and wait to get it back."""
         self.switches += 1
+        lab = label if isinstance(label, str) else 'other'
+        self.probes['switch_at:' + lab] = self.probes.get('switch_at:' + lab, 0) + 1
         if len(self.log) < self.max_log:
             self.log.append((label if isinstance(label, str) else repr(label), me.tid, nxt.tid))
         self.current = nxt
